@@ -1,4 +1,4 @@
-(* _inc, _dec, _bnot, _unm, __mul *)
+(* _inc, _dec, _bnot, _unm *)
 From C17 Require Import Model Proofs ProofsLib.
 From Coq Require Import ZifyBool.
 Local Open Scope Z_scope.
@@ -113,236 +113,3 @@ Proof.
   rewrite Z.mod_add by lia. reflexivity.
 Qed.
 
-(* ---- __mul ---- *)
-(* inner k-loop: adds the (unsigned reading of the) 64-bit product a at the head of the tail z *)
-Lemma mul_addk_spec z : forall a c, Forall limb_ok z -> in_i64 a -> 0 <= c <= 1 ->
-  Forall limb_ok (mul_addk z a c) /\ length (mul_addk z a c) = length z /\
-  uval (mul_addk z a c) = (uval z + u64 a + c) mod Wd ^ Z.of_nat (length z).
-Proof.
-  induction z as [|zk r IH]; intros a c Hz Ha Hc; cbn [mul_addk length uval].
-  - change (Z.of_nat 0) with 0. rewrite Z.pow_0_r, Z.mod_1_r. auto.
-  - inversion Hz as [|? ? Hzk Hr]; subst. unfold limb_ok in Hzk.
-    pose proof Wd_le32. pose proof Wd_ge2. pose proof (Wdpow_pos (length r)) as HP.
-    rewrite (band_wordmax_u64 a). rewrite (shr_word_u64 a).
-    pose proof (Z.mod_pos_bound (u64 a) Wd ltac:(lia)) as Hm.
-    pose proof (Z.div_mod (u64 a) Wd ltac:(lia)) as Hdm.
-    pose proof (shr_word_u64_lt a) as Hq.
-    set (am := u64 a mod Wd) in *. set (aq := u64 a / Wd) in *. clearbody am aq.
-    rewrite (ladd_exact zk) by (clear Hdm; i64). rewrite ladd_exact by (clear Hdm; i64).
-    set (tmp := zk + am + c).
-    rewrite band_wordmax. rewrite shr_word by (subst tmp; i64).
-    assert (Hc' : 0 <= tmp / Wd <= 1).
-    { subst tmp. split; [apply Z.div_pos; lia|]. assert ((zk + am + c) / Wd < 2) by (apply Z.div_lt_upper_bound; lia). lia. }
-    assert (Ha' : in_i64 aq).
-    { pose proof wb_range.
-      assert (2 ^ (64 - BINT_WORDBITS) <= 2 ^ 63) by (apply Z.pow_le_mono_r; lia).
-      change (2 ^ 63) with two63 in *. i64. }
-    destruct (IH aq (tmp / Wd) Hr Ha' Hc') as (I1 & I2 & I3).
-    split; [constructor; [apply mod_limb | exact I1]|]. split; [congruence|].
-    rewrite I3, Wdpow_S.
-    assert (Hu : u64 aq = aq).
-    { apply u64_small. pose proof wb_range.
-      assert (2 ^ (64 - BINT_WORDBITS) <= 2 ^ 64) by (apply Z.pow_le_mono_r; lia).
-      change (2 ^ 64) with two64 in *. lia. }
-    rewrite Hu.
-    replace (zk + Wd * uval r + u64 a + c) with (tmp + (uval r + aq) * Wd)
-      by (subst tmp; rewrite Hdm; ring).
-    rewrite Z.rem_mul_r by lia. rewrite Z.mod_add, Z.div_add by lia.
-    replace (tmp / Wd + (uval r + aq)) with (uval r + aq + tmp / Wd) by ring. reflexivity.
-Qed.
-
-Lemma mul_acc_spec z off a : Forall limb_ok z -> in_i64 a -> (off <= length z)%nat ->
-  Forall limb_ok (mul_acc z off a) /\ length (mul_acc z off a) = length z /\
-  uval (mul_acc z off a) = (uval z + Wd ^ Z.of_nat off * u64 a) mod Wd ^ Z.of_nat (length z).
-Proof.
-  intros Hz Ha Ho. unfold mul_acc. pose proof (uval_range z Hz) as Hr.
-  destruct (a =? 0) eqn:E.
-  - apply Z.eqb_eq in E. subst a. change (u64 0) with 0. rewrite Z.mul_0_r, Z.add_0_r.
-    rewrite Z.mod_small by lia. auto.
-  - assert (Hlt : Forall limb_ok (skipn off z)) by (apply Forall_skipn; auto).
-    destruct (mul_addk_spec (skipn off z) a 0 Hlt Ha ltac:(lia)) as (I1 & I2 & I3).
-    assert (Hl1 : length (firstn off z) = off) by (rewrite firstn_length; lia).
-    split; [apply Forall_app; split; [apply Forall_firstn; auto | exact I1]|].
-    split; [rewrite app_length, I2, <- app_length, firstn_skipn; reflexivity|].
-    rewrite uval_app, I3, Hl1, Z.add_0_r.
-    rewrite (uval_firstn_skipn off z). rewrite Hl1.
-    assert (Hlen : length z = (off + length (skipn off z))%nat) by (rewrite skipn_length; lia).
-    rewrite Hlen. rewrite Wdpow_add.
-    pose proof (Wdpow_pos off). pose proof (Wdpow_pos (length (skipn off z))).
-    pose proof (uval_range (firstn off z) (Forall_firstn _ off z Hz)) as Hf. rewrite Hl1 in Hf.
-    set (A := Wd ^ Z.of_nat off) in *. set (B := Wd ^ Z.of_nat (length (skipn off z))) in *.
-    set (f := uval (firstn off z)) in *. set (s := uval (skipn off z)).
-    replace (f + A * s + A * u64 a) with (f + (s + u64 a) * A) by ring.
-    rewrite Z.rem_mul_r by lia. rewrite Z.mod_add, Z.div_add by lia.
-    rewrite (Z.mod_small f A), (Z.div_small f A) by lia. rewrite Z.add_0_l. reflexivity.
-Qed.
-
-(* product of two limbs never exceeds 64 bits unsigned, so the wrapped signed product has the
-   exact product as its unsigned reading *)
-Lemma limb_mul_u64 a b : limb_ok a -> limb_ok b -> u64 (lmul a b) = a * b.
-Proof.
-  intros Ha Hb. rewrite u64_lmul, !limb_u64 by auto. unfold limb_ok in *.
-  pose proof Wd_le. apply Z.mod_small. nia.
-Qed.
-
-(* skipping iterations that do nothing *)
-Lemma fold_left_noop {A} (g : A -> nat -> A) l z : (forall i, In i l -> forall z, g z i = z) -> fold_left g l z = z.
-Proof.
-  revert z. induction l as [|i l IH]; intros z H; cbn [fold_left]; auto.
-  rewrite H by (left; auto). apply IH. intros. apply H. right; auto.
-Qed.
-
-Lemma fold_left_ext_in' {A B} (f g : A -> B -> A) l : forall z,
-  (forall b z, In b l -> f z b = g z b) -> fold_left f l z = fold_left g l z.
-Proof.
-  induction l as [|b l IH]; intros z H; cbn [fold_left]; auto.
-  rewrite H by (left; auto). apply IH. intros. apply H. right; auto.
-Qed.
-
-Lemma fold_window {A} (g : A -> nat -> A) n s e z :
-  (1 <= s)%nat -> (e <= n)%nat ->
-  (forall i, (1 <= i <= n)%nat -> (i < s \/ e < i)%nat -> forall z, g z i = z) ->
-  fold_left g (seq s (S e - s)) z = fold_left g (seq 1 n) z.
-Proof.
-  intros Hs He Hno.
-  destruct (le_lt_dec s (S e)) as [L|L].
-  - replace n with ((s - 1) + ((S e - s) + (n - e)))%nat at 1 by lia.
-    rewrite !seq_app, !fold_left_app.
-    replace (1 + (s - 1))%nat with s by lia. replace (s + (S e - s))%nat with (S e) by lia.
-    rewrite (fold_left_noop g (seq 1 (s - 1))).
-    + rewrite (fold_left_noop g (seq (S e) (n - e))); [reflexivity|].
-      intros i Hi. rewrite in_seq in Hi. apply Hno; lia.
-    + intros i Hi. rewrite in_seq in Hi. apply Hno; lia.
-  - replace (S e - s)%nat with 0%nat by lia. cbn [seq fold_left].
-    symmetry. apply fold_left_noop. intros i Hi. rewrite in_seq in Hi. apply Hno; lia.
-Qed.
-
-Definition win_inv (x y : bint) (n : nat) (se : nat * nat) : Prop :=
-  (1 <= fst se)%nat /\ (snd se <= n)%nat /\
-  forall i : nat, (1 <= i <= n)%nat -> (i < fst se \/ snd se < i)%nat ->
-                  nthz x (i - 1) = 0 /\ nthz y (i - 1) = 0.
-
-Definition win_step (x y : bint) (se : nat * nat) (i : nat) : nat * nat :=
-  if negb (nthz x (i - 1) =? 0) || negb (nthz y (i - 1) =? 0)
-  then (Nat.min (fst se) i, Nat.max (snd se) i) else se.
-
-Lemma win_step_inv x y n se : win_inv x y n se -> win_inv x y (S n) (win_step x y se (S n)).
-Proof.
-  intros (H1 & H2 & H3). unfold win_step.
-  destruct (nthz x (S n - 1) =? 0) eqn:E1; [destruct (nthz y (S n - 1) =? 0) eqn:E2|]; cbn [negb orb].
-  - apply Z.eqb_eq in E1, E2. split; [exact H1|]. split; [lia|].
-    intros i Hi Ho. destruct (Nat.eq_dec i (S n)) as [->|Hne]; [auto|]. apply H3; lia.
-  - split; [cbn [fst]; lia|]. split; [cbn [snd]; lia|]. cbn [fst snd].
-    intros i Hi Ho. apply H3; lia.
-  - split; [cbn [fst]; lia|]. split; [cbn [snd]; lia|]. cbn [fst snd].
-    intros i Hi Ho. apply H3; lia.
-Qed.
-
-Lemma win_fold_inv x y m : forall n se, win_inv x y n se ->
-  win_inv x y (n + m) (fold_left (win_step x y) (seq (S n) m) se).
-Proof.
-  induction m as [|m IH]; intros n se H; cbn [seq fold_left].
-  - replace (n + 0)%nat with n by lia. exact H.
-  - replace (n + S m)%nat with (S n + m)%nat by lia. apply IH, win_step_inv, H.
-Qed.
-
-Lemma mul_window_spec x y :
-  let se := mul_window x y in
-  (1 <= fst se)%nat /\ (snd se <= BINT_SIZE)%nat /\
-  forall i : nat, (1 <= i <= BINT_SIZE)%nat -> (i < fst se \/ snd se < i)%nat ->
-                  nthz x (i - 1) = 0 /\ nthz y (i - 1) = 0.
-Proof.
-  cbn zeta. unfold mul_window. change (fun (se : nat * nat) (i : nat) => _) with (win_step x y).
-  apply (win_fold_inv x y BINT_SIZE 0%nat (S BINT_SIZE, 0%nat)).
-  split; [cbn [fst]; lia|]. split; [cbn [snd]; lia|]. intros i Hi. lia.
-Qed.
-
-Definition mul_inner (x y : bint) (i : nat) (z : bint) (j : nat) : bint :=
-  mul_acc z (i + j - 2) (lmul (nthz x (i - 1)) (nthz y (j - 1))).
-
-Lemma mul_inner_full x y i : Forall limb_ok x -> Forall limb_ok y -> (1 <= i <= BINT_SIZE)%nat ->
-  forall m z, (m <= S BINT_SIZE - i)%nat -> Forall limb_ok z -> length z = BINT_SIZE ->
-  let z' := fold_left (mul_inner x y i) (seq 1 m) z in
-  Forall limb_ok z' /\ length z' = BINT_SIZE /\
-  uval z' = (uval z + Wd ^ Z.of_nat (i - 1) * nthz x (i - 1) * uval (firstn m y)) mod Wfull.
-Proof.
-  intros Hx Hy Hi. induction m as [|m IH]; intros z Hm Hz Lz.
-  - cbn [seq fold_left firstn uval]. rewrite Z.mul_0_r, Z.add_0_r.
-    pose proof (wf_range z (conj Lz Hz)). rewrite Z.mod_small by lia. auto.
-  - rewrite seq_S, fold_left_app. cbn [fold_left]. cbn zeta.
-    destruct (IH z ltac:(lia) Hz Lz) as (I1 & I2 & I3).
-    set (z1 := fold_left (mul_inner x y i) (seq 1 m) z) in *.
-    unfold mul_inner at 1 2 3.
-    assert (Hxi : limb_ok (nthz x (i - 1))) by (apply nth_limb_ok; auto).
-    assert (Hyj : limb_ok (nthz y (1 + m - 1))) by (apply nth_limb_ok; auto).
-    destruct (mul_acc_spec z1 (i + (1 + m) - 2) (lmul (nthz x (i - 1)) (nthz y (1 + m - 1))) I1
-                (wrap64_range _) ltac:(lia)) as (A1 & A2 & A3).
-    split; [exact A1|]. split; [congruence|].
-    rewrite A3, I2, <- Wfull_eq, I3, limb_mul_u64 by auto.
-    rewrite uval_firstn_S.
-    pose proof Wfull_pos.
-    rewrite Z.add_mod_idemp_l by lia. f_equal.
-    assert (Hfl : length (firstn m y) = Nat.min m (length y)) by apply firstn_length.
-    replace (1 + m - 1)%nat with m by lia.
-    destruct (le_lt_dec (length y) m) as [L|L].
-    + unfold nthz. rewrite (nth_overflow y) by lia. ring.
-    + rewrite Hfl. replace (Nat.min m (length y)) with m by lia.
-      replace (i + (1 + m) - 2)%nat with ((i - 1) + m)%nat by lia. rewrite Wdpow_add. unfold nthz. ring.
-Qed.
-
-Lemma mul_outer_full x y : wf x -> wf y ->
-  forall k, (k <= BINT_SIZE)%nat ->
-  let z' := fold_left (fun z i => fold_left (mul_inner x y i) (seq 1 (S BINT_SIZE - i)) z) (seq 1 k) bint_zero in
-  Forall limb_ok z' /\ length z' = BINT_SIZE /\
-  uval z' = (uval (firstn k x) * uval y) mod Wfull.
-Proof.
-  intros [Lx Fx] [Ly Fy]. induction k as [|k IH]; intros Hk.
-  - cbn [seq fold_left firstn uval]. destruct wf_zero as ([Lz Fz] & Vz). rewrite Vz. cbn. auto.
-  - rewrite seq_S, fold_left_app. cbn [fold_left]. cbn zeta.
-    destruct (IH ltac:(lia)) as (I1 & I2 & I3).
-    set (z1 := fold_left _ (seq 1 k) bint_zero) in *.
-    destruct (mul_inner_full x y (1 + k) Fx Fy ltac:(lia) (S BINT_SIZE - (1 + k)) z1 ltac:(lia) I1 I2) as (A1 & A2 & A3).
-    split; [exact A1|]. split; [exact A2|].
-    rewrite A3, I3. pose proof Wfull_pos. rewrite Z.add_mod_idemp_l by lia.
-    rewrite uval_firstn_S. rewrite firstn_length. replace (Nat.min k (length x)) with k by lia.
-    replace (1 + k - 1)%nat with k by lia. unfold nthz.
-    set (m := (S BINT_SIZE - (1 + k))%nat).
-    rewrite (uval_firstn_skipn m y) at 2. rewrite firstn_length. replace (Nat.min m (length y)) with m by lia.
-    (* the part of y beyond limb m contributes a multiple of Wd^SIZE *)
-    assert (HW : Wfull = Wd ^ Z.of_nat k * Wd ^ Z.of_nat m).
-    { rewrite Wfull_eq, <- Wdpow_add. f_equal. lia. }
-    set (A := uval (firstn k x) * uval y). set (xk := nth k x 0). set (f := uval (firstn m y)). set (s := uval (skipn m y)).
-    replace ((uval (firstn k x) + Wd ^ Z.of_nat k * xk) * (f + Wd ^ Z.of_nat m * s))
-      with (uval (firstn k x) * (f + Wd ^ Z.of_nat m * s) + Wd ^ Z.of_nat k * xk * f + (xk * s) * Wfull)
-      by (rewrite HW; ring).
-    rewrite Z.mod_add by lia. f_equal.
-    subst A. rewrite (uval_firstn_skipn m y) at 1. rewrite firstn_length. replace (Nat.min m (length y)) with m by lia.
-    reflexivity.
-Qed.
-
-Lemma lmul_zero_l b : lmul 0 b = 0. Proof. reflexivity. Qed.
-Lemma lmul_zero_r a : lmul a 0 = 0. Proof. unfold lmul. rewrite Z.mul_0_r. reflexivity. Qed.
-Lemma mul_acc_zero z off : mul_acc z off 0 = z. Proof. reflexivity. Qed.
-
-Theorem mul_correct x y : wf x -> wf y ->
-  wf (bmul x y) /\ uval (bmul x y) = (uval x * uval y) mod Wfull.
-Proof.
-  intros Hx Hy. unfold bmul.
-  pose proof (mul_window_spec x y) as HW. cbn zeta in HW.
-  destruct (mul_window x y) as [s e]. cbn [fst snd] in HW. destruct HW as (Hs & He & Hz).
-  (* rewrite the windowed loops into the full loops *)
-  assert (E : fold_left (fun z i => fold_left (fun z j => mul_acc z (i + j - 2) (lmul (nthz x (i - 1)) (nthz y (j - 1))))
-                 (seq s (S (Nat.min (S BINT_SIZE - i) e) - s)) z) (seq s (S e - s)) bint_zero
-            = fold_left (fun z i => fold_left (mul_inner x y i) (seq 1 (S BINT_SIZE - i)) z) (seq 1 BINT_SIZE) bint_zero).
-  { rewrite <- (fold_window (fun z i => fold_left (mul_inner x y i) (seq 1 (S BINT_SIZE - i)) z) BINT_SIZE s e) by
-      (try lia; intros i Hi Ho z; apply fold_left_noop; intros j Hj z0; unfold mul_inner;
-       rewrite (proj1 (Hz i Hi Ho)), lmul_zero_l; apply mul_acc_zero).
-    apply fold_left_ext_in'. intros i z Hi. rewrite in_seq in Hi.
-    change (fun z0 j => mul_acc z0 (i + j - 2) (lmul (nthz x (i - 1)) (nthz y (j - 1)))) with (mul_inner x y i).
-    apply (fold_window (mul_inner x y i) (S BINT_SIZE - i) s (Nat.min (S BINT_SIZE - i) e)); try lia.
-    intros j Hj Ho z0. unfold mul_inner.
-    rewrite (proj2 (Hz j ltac:(lia) ltac:(lia))), lmul_zero_r. apply mul_acc_zero. }
-  rewrite E.
-  destruct (mul_outer_full x y Hx Hy BINT_SIZE ltac:(lia)) as (A1 & A2 & A3).
-  split; [split; auto|]. rewrite A3. rewrite <- (wf_length x Hx), firstn_all. reflexivity.
-Qed.
